@@ -83,6 +83,7 @@ raw_start(struct Storage* self_)
     struct Raw* self = containerof(self_, struct Raw, writer);
     CHECK(file_create(
       &self->file, self->properties.uri.str, self->properties.uri.nbytes));
+    self->offset = 0; // each acquisition writes its own file from the start
     LOG("RAW: Frame header size %d bytes", (int)sizeof(struct VideoFrame));
     return DeviceState_Running;
 Error:
